@@ -195,7 +195,7 @@ def gen_builtin_case(rng, nmax):
     else:
         X = [[rng.choice([0, 0, 0, 5, -4]) + rng.randint(0, 1) for _ in range(p)] for _ in range(n)]
     scale = rng.choice([0.0, 0.05, 0.1, 0.3, 0.5, 1.0, 2.0])
-    case = {"n": n, "m": m, "p": p, "cost": cost, "X": X, "scale": scale}
+    case = {"n": n, "m": m, "p": p, "cost": cost, "X": X, "scale": scale, "container": rng.choice(["ndarray", "frame", "frame"])}
     if rng.random() < 0.4:  # the same detector object has already been used on other data of the same shape
         case["warm"] = [[rng.randint(-3, 3) for _ in range(p)] for _ in range(n)]
         case["via"] = rng.choice(["transform_scores", "predict"])
@@ -206,16 +206,21 @@ def impl_builtin(case):
     from skchange.change_detectors import PELT
     from skchange.costs import GaussianVarCost, L2Cost
 
-    X = np.array(case["X"], dtype=float)
+    import pandas as pd
+
+    wrap = (lambda a: pd.DataFrame(a)) if case.get("container") == "frame" else (lambda a: a)
+    X = wrap(np.array(case["X"], dtype=float))
     n, m = case["n"], case["m"]
     mk = (lambda: L2Cost()) if case["cost"] == "l2" else (lambda: GaussianVarCost())
     try:
         det = PELT(mk(), penalty_scale=case["scale"], min_segment_length=m)
         if case.get("warm") is not None:
-            W = np.array(case["warm"], dtype=float)
+            W = wrap(np.array(case["warm"], dtype=float))
             det.fit(W)
             det.transform_scores(W)
         det.fit(X)
+        if case.get("warm") is not None and case["n"] % 2 == 0:  # the fitted detector is also used on other data of the same index first
+            det.predict(wrap(np.array(case["warm"], dtype=float)[::-1] + 1.0))
         if case.get("via") == "transform_scores":
             opt = [float(v) for v in det.transform_scores(X).values]
             y = det.predict(X)
@@ -225,7 +230,7 @@ def impl_builtin(case):
         cps = [int(v) for v in y["ilocs"]]
         pen = float(det.penalty_)
         # the cost table as the implementation itself evaluates it (fresh scorer)
-        sc = mk().fit(X)
+        sc = mk().fit(np.asarray(X))
         cuts = np.array([(s, e) for s in range(n) for e in range(s + sc.min_size, n + 1)])
         vals = sc.evaluate(cuts).sum(axis=1)
         tab = {f"{s},{e}": float(v) for (s, e), v in zip(cuts.tolist(), vals)}
